@@ -34,6 +34,7 @@ values are shared, and describe them as DATA in lean/PyrollModel/Gen/C12.lean:
 Only whitelisted shapes are translated; anything else is a `Gap` (broken tie).
 """
 import ast
+import re
 import copy
 import os
 
@@ -928,6 +929,154 @@ def roll_param_uses(repo):
 
 
 # -------------------------------------------------------------------------------------------------
+# in-place operations in hook functions (values are handed along the line by reference; numbers can be mutable: ndarray)
+# -------------------------------------------------------------------------------------------------
+_HOOK_DECO = re.compile(r"^[A-Z]\w*(\.\w+)+(\(.*\))?$", re.S)
+_FRESH_CALLS = {"set", "list", "dict", "frozenset", "tuple", "sorted", "bytearray", "float", "int", "complex",
+                "np.array", "np.zeros", "np.ones", "np.empty", "np.full", "np.zeros_like", "np.ones_like", "np.empty_like",
+                "np.full_like", "np.copy", "np.linspace", "np.arange", "np.concatenate", "np.stack", "np.hstack", "np.vstack",
+                "numpy.array", "numpy.zeros", "numpy.ones", "numpy.copy", "copy.copy", "copy.deepcopy"}
+_INPLACE_CALLS = MUTATORS | {"sort", "reverse", "fill", "resize", "put", "itemset", "setdefault", "partition", "setfield",
+                             "__setitem__", "__iadd__", "__isub__", "__imul__", "__itruediv__", "__ior__", "__iand__"}
+
+
+def _fresh(e):
+    """does the expression build a NEW object (or an immutable constant) on every evaluation?  Arithmetic (`a + b`,
+    `-a`, `a | b`), comparisons, literals, comprehensions, f-strings, calls of the whitelisted makers and `.copy()`; NOT a
+    name, an attribute chain, a subscript, `a or b`, `a if c else b` of non-fresh parts, `np.asarray(x)` (returns `x`
+    itself when it already is an array)"""
+    if isinstance(e, (ast.Constant, ast.List, ast.Set, ast.Dict, ast.ListComp, ast.SetComp, ast.DictComp, ast.JoinedStr,
+                      ast.BinOp, ast.UnaryOp, ast.Compare)):
+        return True
+    if isinstance(e, ast.Tuple):
+        return all(_fresh(x) for x in e.elts)
+    if isinstance(e, ast.IfExp):
+        return _fresh(e.body) and _fresh(e.orelse)
+    if isinstance(e, ast.BoolOp):
+        return all(_fresh(x) for x in e.values)
+    if isinstance(e, ast.Call):
+        if _src(e.func) in _FRESH_CALLS:
+            return True
+        if isinstance(e.func, ast.Attribute) and e.func.attr == "copy" and not e.args:
+            return True
+    return False
+
+
+def _is_hook_function(fn):
+    for d in fn.decorator_list:
+        t = _src(d)
+        if _HOOK_DECO.match(t) and not t.endswith((".setter", ".getter", ".deleter")):
+            return t
+    return None
+
+
+def hook_inplace(repo):
+    """every IN-PLACE operation in a hook function of pyroll/core (a module level function decorated with
+    `@<Class>.<…>.<hook>`): augmented assignment of any operator, a mutating method call, an assignment to a subscript /
+    attribute of something, `out=` of a call.  Returns (number of hook functions, foreign, own): `own` = (file:function,
+    statement) whose receiver is a LOCAL name bound in that function only to objects the function builds itself (`_fresh`:
+    `length = 0; length += x`, `acc = []; acc.append(x)`, `t = a | b; t.add(x)`); `foreign` = (file:function, receiver
+    [= what it is bound to], statement) for every other one: the receiver is a parameter, an attribute chain, or a local
+    that is (on some path) bound to a value the function merely received (`strain = self.roll_pass.in_profile.strain;
+    strain += …` changes the in-profile's value - which is the caller's - when it is a mutable number).  The model has hook
+    results as new values or handed-on references and numbers as atoms; that rests on `foreign = []`"""
+    base = os.path.join(repo, "pyroll", "core")
+    n_funcs, foreign, own = 0, [], []
+    for root, dirs, files in os.walk(base):
+        dirs.sort()
+        for f in sorted(files):
+            if not f.endswith(".py"):
+                continue
+            path = os.path.join(root, f)
+            rel = os.path.relpath(path, base)
+            with open(path) as fh:
+                tree = ast.parse(fh.read(), filename=path)
+            for fn in tree.body:
+                if not isinstance(fn, ast.FunctionDef) or _is_hook_function(fn) is None:
+                    continue
+                n_funcs += 1
+                params = {a.arg for a in fn.args.args + fn.args.kwonlyargs + fn.args.posonlyargs}
+                if fn.args.vararg:
+                    params.add(fn.args.vararg.arg)
+                if fn.args.kwarg:
+                    params.add(fn.args.kwarg.arg)
+                binds = {}                       # local name -> [bound expression or None (loop / with / unpacking target)]
+
+                def bind(t, v):
+                    if isinstance(t, ast.Name):
+                        binds.setdefault(t.id, []).append(v)
+                    elif isinstance(t, (ast.Tuple, ast.List)):
+                        for x in t.elts:
+                            bind(x, None)
+                    elif isinstance(t, ast.Starred):
+                        bind(t.value, None)
+                for n in ast.walk(fn):
+                    if isinstance(n, ast.Assign):
+                        for t in n.targets:
+                            bind(t, n.value)
+                    elif isinstance(n, ast.AnnAssign) and n.value is not None:
+                        bind(n.target, n.value)
+                    elif isinstance(n, ast.NamedExpr):
+                        bind(n.target, n.value)
+                    elif isinstance(n, (ast.For, ast.AsyncFor)):
+                        bind(n.target, None)
+                    elif isinstance(n, ast.comprehension):
+                        bind(n.target, None)
+                    elif isinstance(n, (ast.With, ast.AsyncWith)):
+                        for it in n.items:
+                            if it.optional_vars is not None:
+                                bind(it.optional_vars, None)
+                    elif isinstance(n, ast.ExceptHandler) and n.name:
+                        binds.setdefault(n.name, []).append(None)
+
+                def base_name(t):
+                    while isinstance(t, (ast.Attribute, ast.Subscript, ast.Starred)):
+                        t = t.value
+                    return t
+
+                def record(recv, st):
+                    b = base_name(recv)
+                    where = f"{rel}:{fn.name}"
+                    if isinstance(recv, ast.Name) and recv.id not in params and recv.id in binds \
+                            and all(v is not None and _fresh(v) for v in binds[recv.id]):
+                        own.append((where, _src(st)[:120]))
+                    elif isinstance(recv, (ast.Subscript,)) and isinstance(b, ast.Name) and b.id not in params \
+                            and b.id in binds and isinstance(recv.value, ast.Name) \
+                            and all(v is not None and _fresh(v) for v in binds[b.id]):
+                        own.append((where, _src(st)[:120]))          # `acc[i] = …` / `acc[i] += …` on an own container
+                    else:
+                        what = _src(recv)
+                        if isinstance(recv, ast.Name) and recv.id in binds:
+                            what += " = " + " | ".join(sorted({_src(v) if v is not None else "<unpacked>"
+                                                               for v in binds[recv.id]}))[:160]
+                        foreign.append((where, what, _src(st)[:120]))
+                for n in ast.walk(fn):
+                    if isinstance(n, ast.AugAssign):
+                        record(n.target, n)
+                    elif isinstance(n, (ast.Assign, ast.AnnAssign)):
+                        ts = n.targets if isinstance(n, ast.Assign) else [n.target]
+                        flat = []
+                        for t in ts:
+                            flat.extend(t.elts if isinstance(t, (ast.Tuple, ast.List)) else [t])
+                        for t in flat:
+                            if isinstance(t, (ast.Subscript, ast.Attribute)):
+                                record(t, n)
+                    elif isinstance(n, ast.Delete):
+                        for t in n.targets:
+                            if isinstance(t, (ast.Subscript, ast.Attribute)):
+                                record(t, n)
+                    elif isinstance(n, ast.Call):
+                        if isinstance(n.func, ast.Attribute) and n.func.attr in _INPLACE_CALLS:
+                            record(n.func.value, n)
+                        elif isinstance(n.func, ast.Name) and n.func.id in ("setattr", "delattr") and n.args:
+                            record(n.args[0], n)
+                        for k in n.keywords:
+                            if k.arg == "out":
+                                record(k.value, n)
+    return n_funcs, foreign, own
+
+
+# -------------------------------------------------------------------------------------------------
 def _s(x):
     return '"' + x.replace("\\", "\\\\").replace('"', '\\"') + '"'
 
@@ -951,6 +1100,7 @@ def generate(repo):
     roll_store = roll_store_form(repo)
     roll_binds = roll_bindings(repo)
     roll_uses = roll_param_uses(repo)
+    n_hook_fns, inplace_foreign, inplace_own = hook_inplace(repo)
 
     L = []
     L.append("/- GENERATED by driver/translate/c12_effects.py from pyroll/core (unit/unit.py, hooks.py, roll_pass/*.py,")
@@ -1037,6 +1187,20 @@ def generate(repo):
     L.append("    constructor defined by a class `…Roll` there: (file:Class.method, statement) -/")
     L.append("def rollParamUses : List (String × String) :=\n  ["
              + ",\n   ".join(f"({_s(a)}, {_s(b)})" for a, b in roll_uses) + "]")
+    L.append("")
+    L.append("/-- number of hook functions of pyroll/core (module level functions decorated with `@<Class>.….<hook>`) -/")
+    L.append(f"def hookFunctions : Nat := {n_hook_fns}")
+    L.append("")
+    L.append("/-- in-place operations (augmented assignment, mutating call, subscript / attribute assignment, `out=`) in hook")
+    L.append("    functions whose receiver is NOT a local bound only to objects the function builds itself: (file:function,")
+    L.append("    receiver [= what it is bound to], statement).  Such an operation changes a value the function received -")
+    L.append("    values (sets, arrays used as numbers) are handed along the line by reference -/")
+    L.append("def hookInplaceForeign : List (String × String × String) :=\n  ["
+             + ",\n   ".join(f"({_s(a)}, {_s(b)}, {_s(c)})" for a, b, c in inplace_foreign) + "]")
+    L.append("")
+    L.append("/-- in-place operations in hook functions on locals the function built itself: (file:function, statement) -/")
+    L.append("def hookInplaceOwn : List (String × String) :=\n  ["
+             + ",\n   ".join(f"({_s(a)}, {_s(b)})" for a, b in inplace_own) + "]")
     L.append("")
     L.append("end Gen.C12")
     return "\n".join(L) + "\n"
